@@ -733,6 +733,9 @@ func (n *ExtendsNode) Render(w io.Writer, ctx *RenderContext) error {
 	parentCtx := NewRenderContext(ctx.env, ctx.context, ctx.engine)
 	parentCtx.sandboxed = ctx.sandboxed // a sandboxed template stays sandboxed in its parents
 	parentCtx.extending = true          // Flag that the parent is being extended
+	// The variables this template reads through its chain of contexts (an included
+	// template reads the including template's variables) stay readable in its parents
+	parentCtx.parent = ctx.parent
 
 	// Pass along the parent template as lastLoadedTemplate for relative path resolution
 	parentCtx.lastLoadedTemplate = parentTemplate
